@@ -8,9 +8,9 @@ HARNESSES = [
     dict(name="int", pkg="./internal/pppoe/", test="TestVerifC04Int",
          files=[("internal/pppoe/zz_verif_c04_int_test.go", "harness/C04/zz_verif_c04_int_test.go")]),
 ]
-# one model variant: Repaired = /repo HEAD (all six findings are fixed there: b12b708, 731c2cc, 46cb3dc, 9893c59).
-# A regression to any of the old defects is a VIOLATION.
-VARIANTS = ["repaired"]
+# repaired = /repo HEAD + fixes/C04_hasync_id_in_use.patch (the one open finding); no_ha_check = /repo HEAD.
+# All earlier findings are fixed in /repo (b12b708, 731c2cc, 46cb3dc, 9893c59): a regression to any of them is a VIOLATION.
+VARIANTS = ["repaired", "no_ha_check"]
 MODEL_NEEDS_IMPL = True   # the wall-clock second the implementation ran in is read from its output
 RULE = ("ck: cookie cases = one Generate (compared byte for byte) + Validate queries: the 37 truncations, an extension, "
         "every byte flipped, tuple permutations (other MAC, MAC length 0/5/7/8, VLANs swapped/shifted), forged cookies "
@@ -289,9 +289,12 @@ def gen_tb_one(rng, ttl=60, scale=None):
     for _ in range(rng.randint(3, 16)):
         h = rng.choice(hosts)
         r = rng.random()
-        if r < 0.04:
+        if r < 0.03:
             ops.append("L/%d" % rng.choice([0, 0, 1, 60, ttl]))
-        elif r < 0.1:
+        elif r < 0.07:
+            # checkpoint synced from the HA peer: the id is the PEER's choice (in use here or not)
+            ops.append("H/%d/%s%s" % (rng.choice(sids), tup(h), rng.choice(["", "", "/" + NAMES[0]])))
+        elif r < 0.12:
             ops.append("I/" + tup(h))
         elif r < 0.45:
             k = rng.random()
@@ -395,6 +398,26 @@ def gen_tb_collide(rng, tier):
     return cases
 
 
+def gen_tb_hasync(rng, tier):
+    """run-time HA restore (restoreFromHASync) of checkpoints whose ids were allocated by the peer: ids that are
+    free, 0, in use by a local session of another / the same tuple, just released, about to be allocated"""
+    head = "tb %s 60 G=0-199 occ=- next=- ; " % SECRET
+    cases = []
+    for own, peer in [(A, B), (B, A), (A, A2), (A, A)]:
+        R = "R/%s/%s" % (tup(own), ck_valid(own))
+        cases += [
+            head + " ".join([R, "H/1/%s" % tup(peer), "S/%s/1/cr" % tup(own), "S/%s/1/cr" % tup(peer), "T/%s/1" % tup(own),
+                             "T/%s/1" % tup(peer), "S/%s/1/er" % tup(own)]),
+            head + " ".join(["H/0/%s" % tup(peer), R, "S/%s/0/cr" % tup(peer), "T/%s/0" % tup(peer)]),
+            head + " ".join(["H/5/%s/626f62" % tup(peer), R, "R/%s/%s" % (tup(own), ck_valid(own)), "H/2/%s" % tup(peer),
+                             "H/3/%s" % tup(peer), "R/%s/%s" % (tup(own), ck_valid(own)), "S/%s/3/cr" % tup(peer)]),
+            head + " ".join([R, "T/%s/1" % tup(own), "H/1/%s" % tup(peer), "H/1/%s" % tup(own), "S/%s/1/cr" % tup(peer)]),
+            head + " ".join(["H/65535/%s" % tup(peer), R, "H/65535/%s" % tup(own), "P/2/100"]),
+            head + " ".join(["X/7/%s/626f62" % tup(own), "H/7/%s/626f62" % tup(peer), "T/%s/7" % tup(peer), "T/%s/7" % tup(own)]),
+        ]
+    return cases
+
+
 def gen_tb_race(rng, tier):
     """PADRs forced to overlap between allocateSessionID and addToIndexes (gate in the harness's AccessResolver)"""
     head = "tb %s 60 G=0-199 " % SECRET
@@ -457,7 +480,7 @@ def gen_cases(rng, tier, budget):
     n = (budget or 700) if tier == "quick" else (budget or 12000)
     for _ in range(n):
         cases.append(gen_tb_one(rng, ttl=rng.choice([60, 60, 60, 5])))
-    cases += gen_directed() + gen_tb_collide(rng, tier) + gen_tb_race(rng, tier) + gen_tb_attr(rng, tier)
+    cases += gen_directed() + gen_tb_collide(rng, tier) + gen_tb_hasync(rng, tier) + gen_tb_race(rng, tier) + gen_tb_attr(rng, tier)
     # quick: one history with 65535 sessions (last id taken -> id space full -> freed -> two PADRs race for it)
     cases += FULLSCALE[1:]
     if tier == "thorough":
@@ -520,6 +543,25 @@ def classify(case, impl, model):
         if x != y:
             return "P", "op #%d %s: implementation %s, model (repaired) %s" % (i, ops[i] if i < len(ops) else "?", x, y)
     return "P", "final session table differs: impl %r model %r" % (idump[:200], mdump[:200])
+
+
+def signature(case, impl, models):
+    """the one open finding: restoreFromHASync installs a peer-allocated id that is 0 or in use"""
+    if not case.startswith("tb"):
+        return None
+    io, _ = split_tb(impl)
+    mo, _ = split_tb(models["repaired"])
+    if io is None or mo is None:
+        return None
+    ops = tb_ops(case)
+    for i, (x, y) in enumerate(zip(io, mo)):
+        if x == y:
+            continue
+        kind = ops[i].split("/")[0] if i < len(ops) else "?"
+        if kind == "H" and x.startswith("synced:") and y == "none":
+            return "ha-restore-overwrites-live-session-id"
+        return "other-op-%s" % kind
+    return "final-table-only"
 
 
 def shrink(case):
